@@ -28,6 +28,7 @@ Gapless == StrategyKind \in {"next", "offset"}
 SeqMax(s) == s[Len(s)]
 RangeOf(s) == { s[i] : i \in 1..Len(s) }
 StoredOf(obs) == [p \in 1..P |-> obs.stored[p]]
+Known(obs) == [p \in 1..P |-> IF tcommitted[p] = -2 THEN obs.stored[p] ELSE tcommitted[p]]   \* (-2: see wire_store_lost)
 
 (* ---- producer ---- *)
 Addressed == IF call.call = "send_to" THEN <<call.to[1], call.to[2]>> ELSE <<1, 1>>
@@ -61,7 +62,7 @@ CallEndLabels(e) ==
     \cup { <<"C20.chunk_misplaced", chunks[i]>> : i \in { i \in 1..Len(chunks) : ~PartOfChunkOk(obs, chunks[i]) } }
     \cup { <<"C20.partition_content", p, Added(obs, AKey(p)), ExpectedAdd(obs, p)>> :
              p \in { p \in 1..P : AKey(p) \in Keys /\ Added(obs, AKey(p)) # ExpectedAdd(obs, p) } }
-    \cup (IF StoredOf(obs) # tcommitted THEN {<<"C20.commit_view", StoredOf(obs), tcommitted>>} ELSE {})
+    \cup (IF StoredOf(obs) # Known(obs) THEN {<<"C20.commit_view", StoredOf(obs), tcommitted>>} ELSE {})
 
 (* ---- consumer ---- *)
 ExpectedPollValue(p) == IF StrategyKind = "offset" THEN (IF tylast[p] = -1 THEN StrategyOffset ELSE tylast[p] + 1) ELSE 0
@@ -98,11 +99,11 @@ ConsumeEndLabels(e) ==
           THEN { <<"C20.stalled", p, NextExpected(tylast, StartIfNone(p), p), Len(e.obs.logs[Key(1, 1, p)])>> :
                    p \in { p \in MyP : NextExpected(tylast, StartIfNone(p), p) < Len(e.obs.logs[Key(1, 1, p)]) } }
           ELSE {})
-    \cup (IF StoredOf(e.obs) # tcommitted THEN {<<"C20.commit_view", StoredOf(e.obs), tcommitted>>} ELSE {})
+    \cup (IF StoredOf(e.obs) # Known(e.obs) THEN {<<"C20.commit_view", StoredOf(e.obs), tcommitted>>} ELSE {})
     \cup (IF ~CommitLeFetched(tcommitted, teverF, 1..P) THEN {<<"C20.commit_beyond_fetched", tcommitted, teverF>>} ELSE {})
     \cup (IF ccfg.mode \notin PollingModes /\ ~CommitLeYielded(tcommitted, teverY, 1..P)
           THEN {<<"C20.commit_beyond_yielded", tcommitted, teverY>>} ELSE {})
-ViewLabels(e) == IF StoredOf(e.obs) # tcommitted THEN {<<"C20.commit_view", StoredOf(e.obs), tcommitted>>} ELSE {}
+ViewLabels(e) == IF StoredOf(e.obs) # Known(e.obs) THEN {<<"C20.commit_view", StoredOf(e.obs), tcommitted>>} ELSE {}
 
 Reset(e) ==
     /\ P' = e.partitions /\ pcfg' = e.producer /\ ccfg' = e.consumer
@@ -128,7 +129,8 @@ Step(e) ==
                         THEN keymap \cup { <<<<Addressed, ExpectedPart>>, p>> : p \in UNION { Landing(e.obs, chunks[i]) : i \in 1..Len(chunks) } }
                         ELSE keymap
            /\ call' = <<>> /\ rem' = <<>> /\ chunks' = <<>>
-           /\ Keep(<<P, pcfg, ccfg, tcommitted, tlive, tylast, tystart, teverY, teverF, dead>>)
+           /\ tcommitted' = Known(e.obs)
+           /\ Keep(<<P, pcfg, ccfg, tlive, tylast, tystart, teverY, teverF, dead>>)
       [] e.ev = "wire_poll" ->
            /\ bad' = WirePollLabels(e)
            /\ IF e.res = "ok" /\ e.offs # <<>> /\ e.p \in 1..P
@@ -149,15 +151,25 @@ Step(e) ==
            /\ bad' = WireStoreLabels(e)
            /\ tcommitted' = IF e.res = "ok" /\ e.partition \in 1..P THEN [tcommitted EXCEPT ![e.partition] = e.offset] ELSE tcommitted
            /\ Keep(<<P, pcfg, ccfg, logs, call, rem, chunks, tlive, tylast, tystart, teverY, teverF, keymap, dead>>)
+      [] e.ev = "wire_store_lost" ->
+           \* the consumer was dropped in the middle of a commit: the request may or may not have reached the server (-2: unknown
+           \* until the next observation); it is bound by the property like any commit
+           /\ bad' = IF e.partition \in 1..P /\ ~StoreAllowed(teverY, e.partition, e.offset)
+                     THEN {<<"C20.commit_beyond_yielded", e.partition, e.offset, teverY[e.partition]>>} ELSE {}
+           /\ tcommitted' = IF e.partition \in 1..P THEN [tcommitted EXCEPT ![e.partition] = -2] ELSE tcommitted
+           /\ Keep(<<P, pcfg, ccfg, logs, call, rem, chunks, tlive, tylast, tystart, teverY, teverF, keymap, dead>>)
       [] e.ev = "created" ->
            /\ bad' = ViewLabels(e) /\ tlive' = e.inc /\ tylast' = NoneP(P) /\ tystart' = NoneP(P)
-           /\ Keep(<<P, pcfg, ccfg, logs, call, rem, chunks, tcommitted, teverY, teverF, keymap, dead>>)
+           /\ tcommitted' = Known(e.obs)
+           /\ Keep(<<P, pcfg, ccfg, logs, call, rem, chunks, teverY, teverF, keymap, dead>>)
       [] e.ev = "dropped" ->
            /\ bad' = ViewLabels(e) /\ tlive' = 0 /\ tylast' = NoneP(P) /\ tystart' = NoneP(P)
-           /\ Keep(<<P, pcfg, ccfg, logs, call, rem, chunks, tcommitted, teverY, teverF, keymap, dead>>)
+           /\ tcommitted' = Known(e.obs)
+           /\ Keep(<<P, pcfg, ccfg, logs, call, rem, chunks, teverY, teverF, keymap, dead>>)
       [] e.ev = "consume_end" ->
            /\ bad' = ConsumeEndLabels(e)
-           /\ Keep(<<P, pcfg, ccfg, logs, call, rem, chunks, tcommitted, tlive, tylast, tystart, teverY, teverF, keymap, dead>>)
+           /\ tcommitted' = Known(e.obs)
+           /\ Keep(<<P, pcfg, ccfg, logs, call, rem, chunks, tlive, tylast, tystart, teverY, teverF, keymap, dead>>)
       [] OTHER -> bad' = {<<"X.unknown_event", e.ev>>} /\ Keep(<<P, pcfg, ccfg, logs, call, rem, chunks, tcommitted, tlive, tylast, tystart, teverY, teverF, keymap, dead>>)
 
 TraceInit == /\ l = 1 /\ dead = TRUE /\ bad = {} /\ P = 0 /\ pcfg = <<>> /\ ccfg = <<>> /\ logs = <<>> /\ call = <<>> /\ rem = <<>>
